@@ -73,8 +73,16 @@ SeedF ==
   << In(1, 1), Node(<<1>>, 1, 1), Node(<<>>, 1, 0), Nm(7, "dg"),
      Node(<<7, 7, 6>>, 1, 2), Node(<<7, 8>>, 1, 2), Out(2, 9), Node(<<6>>, 1, 1), Sub(5, 2), Out(1, 10) >>
 
+\* G: E after a history that comes back to (almost) where it started through a REJECTED edit: main.outputs.append(o6)
+\*    is refused while o6 is an output of g2 (owned by another graph); g2 gives o6 up; o6 becomes an output of g1 and
+\*    stops being one again.  In the specification all that is left is "g2 has no output"; whatever the refused call
+\*    or the release left behind in the implementation shows when the model is written out.  (Histories are invisible
+\*    in the state: TLC would report the state under its shortest history, hence a seed.)
+SeedG == SeedE \o << Out(1, 6), [C("IOPop") EXCEPT !.k = "out", !.g = 2, !.i = -1],
+                     Out(1, 6), [C("IOPop") EXCEPT !.k = "out", !.g = 1, !.i = -1] >>
+
 Seed(id) == CASE id = 1 -> SeedA [] id = 2 -> SeedB [] id = 3 -> SeedC [] id = 4 -> SeedD [] id = 5 -> SeedE
-              [] id = 6 -> SeedF
+              [] id = 6 -> SeedF [] id = 7 -> SeedG
 
 Empty == EmptySCS(3, Names5, Consts5)
 
